@@ -343,6 +343,91 @@ def _ordering(f, call, fn, nid):
     return ok, asc, msg
 
 
+TOKEN = "streamflow.core.workflow.Token"
+
+
+def _ctor_tag(prog, f, call):
+    """`call` constructs a Token (sub)class: (True, its tag argument | None when the default tag is used);
+    (False, None) when it is not a token constructor."""
+    for q in prog.resolve_call(f, call, fanout=False):
+        if q not in prog.classes or not prog.is_subclass(q, TOKEN):
+            continue
+        init = prog.resolve_method(q, "__init__")
+        pos = None
+        if init is not None:
+            a = init.node.args
+            ps = [x.arg for x in a.posonlyargs + a.args][1:]
+            pos = ps.index("tag") if "tag" in ps else None
+        return True, kwarg(call, "tag", pos)
+    return False, None
+
+
+def _bind_args(h, call):
+    """{parameter of helper h: argument expression of `call`} | None when the binding is unknown (* / **)."""
+    if any(isinstance(x, ast.Starred) for x in call.args) or any(k.arg is None for k in call.keywords):
+        return None
+    a = h.node.args
+    pos = [x.arg for x in a.posonlyargs + a.args]
+    if pos and pos[0] in ("self", "cls") and h.cls is not None and isinstance(call.func, ast.Attribute):
+        pos = pos[1:]
+    out = dict(zip(pos, call.args))
+    for k in call.keywords:
+        out[k.arg] = k.value
+    return out
+
+
+def _instance_tagged(prog, f, o, on, accept, depth: int = 2):
+    """(ok, msg): the token expression `o` (an origin evaluated at CFG node `on` of f) carries a tag for which
+    `accept(f, tag expression, nid)` holds.  Recognised: `<token>.retag(T)`, `<Token class>(..., tag=T)` (any class of
+    the Token hierarchy, keyword or the position of `tag` in its constructor), `<tagged token>.update(v)` (update keeps
+    the tag) and a resolved helper (bounded inlining) every return of which is tagged with a parameter bound to T."""
+    o = strip_await(o)
+    rt = method_call(o, "retag")
+    if rt is not None:
+        te = kwarg(rt, "tag", 0)
+        if te is None:
+            return False, f"`{unparse(o)}`: retag() without a tag"
+        ok = accept(f, te, _at(f, te, on))
+        return ok, "" if ok else f"`{unparse(o)}` is tagged `{unparse(te)}`, not the loop instance's tag"
+    if isinstance(o, ast.Call):
+        is_tok, te = _ctor_tag(prog, f, o)
+        if is_tok:
+            if te is None:
+                return False, f"`{unparse(o)}` is built without tag=: it carries the constructor's default tag ('0'), not the loop instance's tag"
+            ok = accept(f, te, _at(f, te, on))
+            return ok, "" if ok else f"`{unparse(o)}` is tagged `{unparse(te)}`, not the loop instance's tag"
+        up = method_call(o, "update")
+        if up is not None and depth > 0:
+            rn = _at(f, up.func.value, on)
+            for r in origin_at(f, up.func.value, rn):
+                ok, msg = _instance_tagged(prog, f, r, _at(f, r, rn), accept, depth - 1)
+                if not ok:
+                    return False, msg
+            return True, ""
+        if depth > 0:
+            hs = [q for q in prog.resolve_call(f, o, fanout=False) if q in prog.functions]
+            h = prog.functions[hs[0]] if len(hs) == 1 else None
+            binding = _bind_args(h, o) if h is not None and h.node is not f.node else None
+            if binding is not None:
+                def through(hf, e, n):
+                    x = single_origin(hf, e, n)
+                    if isinstance(x, ast.Name) and x.id in binding:
+                        d = name_def(hf, x, n)
+                        return d is not None and d.kind == "param" and accept(f, binding[x.id], _at(f, binding[x.id], on))
+                    return False
+
+                hrets = [n for n in h.body_nodes() if isinstance(n, ast.Return) and n.value is not None]
+                if hrets:
+                    for r in hrets:
+                        rn = nid_of(h, r.value)
+                        for ho in origin_at(h, r.value, rn):
+                            ok, msg = _instance_tagged(prog, h, ho, _at(h, ho, rn), through, depth - 1)
+                            if not ok:
+                                return False, f"helper {h.name}: {msg}"
+                    return True, ""
+    return False, f"`{unparse(o)}` is not a token tagged with the loop instance's tag (neither <token>.retag(tag) nor <Token>(..., tag=tag))"
+
+
 def r1(ctx):
     p = ctx.prog
     require_members(ctx, LOS, ["_process_output"], ["token_map"])
@@ -356,12 +441,30 @@ def r1(ctx):
         rets = sorted((n for n in f.body_nodes() if isinstance(n, ast.Return) and n.value is not None), key=lambda n: (n.lineno, n.col_offset))
         ctx.require(len(rets) >= 1, f"C06.R1: {who}._process_output returns nothing")
         outputs = []
+
+        def is_instance_tag(hf, e, n, _f=f, _tagp=tagp):
+            return hf is _f and _is_param(hf, e, _tagp, n)
+
+        # every path through the method ends in a `return <value>` (a bare return / falling off the end emits None)
+        g = f.cfg
+        valued = [i for r in rets for i in g.ids_of(r)]
+        w = g.escape(g.entry, valued, kinds=NORMAL)
+        ctx.ob("R1", f"{who}: every path returns a token", w is None, func=f, node=f.node, instance=f"{who}:returns",
+               message="a path through _process_output ends without returning a token (bare return / end of the body): None is emitted as the loop output",
+               witness=g.describe(w) if w else [])
         for ret in rets:
             rn = nid_of(f, ret.value)
             for o in origin_at(f, ret.value, rn):
                 on = _at(f, o, rn)
                 if not _mentions_map(f, o, on):
                     ctx.observe(f"C06.R1: {who}._process_output: `return {unparse(ret.value)}` does not read the collected tokens (placeholder output, no ordering obligation)")
+                    # no ordering obligation, but the tag obligation holds for every returned value: the output of a loop
+                    # instance (also the null output of an instance without iterations) is matched downstream by the
+                    # instance's tag; a token left with the constructor's default tag '0' belongs to another instance
+                    tok, tmsg = _instance_tagged(p, f, o, on, is_instance_tag)
+                    ctx.ob("R1", f"{who}: a returned placeholder carries the loop instance tag", tok, func=f, node=ret, instance=f"{who}:tag:placeholder:{unparse(o)}",
+                           message=f"`return {unparse(ret.value)}`: {tmsg}: the output of this path (an instance without iterations) is emitted under a tag "
+                           f"other than `{tagp}`, so a scatter element / outer iteration never receives its loop output")
                     continue
                 if not any(same(o, o2) for _r, o2, _n in outputs):
                     outputs.append((ret, o, on))
@@ -454,6 +557,10 @@ def _check_output(ctx, f, who, tagp, ret, o, on, sfx):
         tn = _at(f, tag_expr, on) if tag_expr is not None else on
         ctx.ob("R1", f"{who}: the output carries the loop instance tag", tag_expr is not None and _is_param(f, tag_expr, tagp, tn), func=f, node=ret,
                instance=f"{who}:tag{sfx}", message=f"output is tagged `{unparse(tag_expr) if tag_expr is not None else '<default / iteration tag>'}` instead of the instance tag")
+    else:
+        # unknown output shape (already reported above): the tag obligation is decided on its own
+        tok, tmsg = _instance_tagged(p, f, o, on, lambda hf, e, n: hf is f and _is_param(hf, e, tagp, n))
+        ctx.ob("R1", f"{who}: the output carries the loop instance tag", tok, func=f, node=ret, instance=f"{who}:tag{sfx}", message=tmsg)
 
 
 # =========================================================================== R2
@@ -956,6 +1063,17 @@ VARIANTS = [
     V("All: only the first ten iterations", WFILE, _ALL, "value=sorted(self.token_map.get(tag, []), key=lambda t: int(t.tag.split('.')[-1]))", "value=sorted(self.token_map.get(tag, []), key=lambda t: int(t.tag.split('.')[-1]))[:10]", "R1"),
     V("Last: output does not depend on the iterations", WFILE, _LAST, "return sorted(self.token_map.get(tag, [Token(value=None)]), key=lambda t: int(t.tag.split('.')[-1]))[-1].retag(tag=tag)",
       "return Token(value=None, tag=tag)", "R1"),
+    V("Last: early return of the empty case skips the retag (seeded change C06-3)", WFILE, _LAST, _LAST_RET,
+      "    if not (tokens := self.token_map.get(tag)):\n        return Token(value=None)\n    return max(tokens, key=lambda t: int(t.tag.split('.')[-1])).retag(tag=tag)", "R1", control=True),
+    V("Last: placeholder tagged with the root tag", WFILE, _LAST, _LAST_RET,
+      "    if tag not in self.token_map:\n        return Token(value=None, tag='0')\n" + _LAST_RET.replace(".get(tag, [Token(value=None)])", "[tag]"), "R1"),
+    V("Last: bare return in the empty case", WFILE, _LAST, _LAST_RET,
+      "    if tag not in self.token_map:\n        return\n" + _LAST_RET.replace(".get(tag, [Token(value=None)])", "[tag]"), "R1"),
+    V("Last: placeholder from a helper that drops the tag", WFILE, _LAST, _LAST_RET,
+      "    if tag not in self.token_map:\n        return _c06_null_token(tag)\n" + _LAST_RET.replace(".get(tag, [Token(value=None)])", "[tag]"), "R1",
+      append="\n\ndef _c06_null_token(tag):\n    return Token(value=None)\n"),
+    V("All: empty list token with the default tag", WFILE, _ALL, "    return ListToken(tag=tag, value=sorted(",
+      "    if not self.token_map.get(tag):\n        return ListToken(value=[])\n    return ListToken(tag=tag, value=sorted(", "R1"),
     # R2
     V("run: size from len(tag)", SFILE, _RUN, "self.size_map[prefix] = int(token.tag.split('.')[-1])", "self.size_map[prefix] = len(token.tag.split('.'))", "R2", control=True),
     V("run: emission test only in the data branch", SFILE, _RUN,
